@@ -329,14 +329,14 @@ pub fn subs() -> Vec<Sub> {
         Sub { prop: "C14", name: "compositions-14", rule: "the <= 14-byte streams, every composition (complete in the quick tier)",
               kind: SubKind::Enumerate { quick: n14, thorough: n14, f: compositions14, complete_quick: true, complete_thorough: true } },
         Sub { prop: "C14", name: "fragmentation", rule: "0-5 generated values (payload sizes across head-width boundaries, one >= 64 KiB) delivered through generated read-size scripts with Interrupted errors injected",
-              kind: SubKind::Random { quick: 40_000, thorough: 2_000_000, tape: 1024, f: fragmentation } },
+              kind: SubKind::Random { quick: 200_000, thorough: 2_000_000, tape: 1024, f: fragmentation } },
         Sub { prop: "C14", name: "truncation", rule: "1-4 frames cut at every offset: complete frames read back, a cut on a frame boundary is a clean end, a cut inside a prefix or payload is UnexpectedEof - never a value; evaluations count cuts",
-              kind: SubKind::Random { quick: 6_000, thorough: 300_000, tape: 1024, f: truncation } },
+              kind: SubKind::Random { quick: 30_000, thorough: 300_000, tape: 1024, f: truncation } },
         Sub { prop: "C14", name: "resync", rule: "a frame with corrupted payload or read as the wrong type gives a decode error and every later frame still reads correctly",
-              kind: SubKind::Random { quick: 40_000, thorough: 1_000_000, tape: 1024, f: resync } },
+              kind: SubKind::Random { quick: 200_000, thorough: 1_000_000, tape: 1024, f: resync } },
         Sub { prop: "C14", name: "limits", rule: "max_len in {len-1, len, len+1, 0, 512 KiB, random} on writer (InvalidLen, zero bytes emitted) and reader (InvalidLen, no allocation for the refused frame; hostile prefixes up to 2^32-1; peak allocation bounded)",
-              kind: SubKind::Random { quick: 40_000, thorough: 1_000_000, tape: 1024, f: limits } },
+              kind: SubKind::Random { quick: 200_000, thorough: 1_000_000, tape: 1024, f: limits } },
         Sub { prop: "C14", name: "writer", rule: "0-5 values through a short-writing sink: bytes == concatenation of 4-byte big-endian length + encoding, write returns the payload length, a value whose Encode fails emits nothing",
-              kind: SubKind::Random { quick: 30_000, thorough: 1_000_000, tape: 1024, f: writer_frames } },
+              kind: SubKind::Random { quick: 150_000, thorough: 1_000_000, tape: 1024, f: writer_frames } },
     ]
 }
